@@ -5,7 +5,7 @@ import importlib
 REGISTRY = {
     'C01': ('sim.machines.store_data', 'DataStoreMachine', 64, 4000, 500000),
     'C03': ('sim.machines.store_geo', 'GeoStoreMachine', 64, 4000, 300000),
-    'C05': ('sim.machines.listing', 'TableMachine', 32, 2000, 60000),
+    'C05': ('sim.machines.listing', 'TableMachine', 32, 1500, 60000),
     'C06': ('sim.machines.listing', 'HistoryMachine', 64, 4000, 200000),
     'C07': ('sim.machines.listing', 'NavMachine', 64, 2000, 100000),
     'C08': ('sim.machines.edit_grid', 'GridMachine', 64, 8000, 300000),
